@@ -108,6 +108,11 @@ def correspondence(ctx, model_ok, tmp):
                     info[nid] = (t, k, c)
                     o_reg.add(nid), o_ds.add(nid), o_disk.add(nid)
                     path[nid] = b.getURI(ref).ospath
+                    # a file left behind by removeRuns(unstore=False) at the same path has just been overwritten: from now on the
+                    # file at that path is this dataset's, and goes when this dataset goes
+                    for j in list(o_disk):
+                        if j != nid and path[j] == path[nid]:
+                            o_disk.discard(j)
                     nid += 1
                 except Exception as e:
                     out = "err ConflictingDefinitionError" if "Conflict" in type(e).__name__ else f"err INTERNAL:{type(e).__name__}"
